@@ -59,6 +59,10 @@ type cursorTokenData struct {
 	CreatedAt int64
 	CallID    string // the call token this cursor belongs to
 	State     interface{}
+	// Method is the stream method that minted the cursor. The continuation
+	// route refuses a cursor presented under any other method's path, so one
+	// method's state never runs under another method's schemas.
+	Method string
 }
 
 // resolvedCall is what an authenticated CallID resolves to — either from the
@@ -461,10 +465,17 @@ func (h *HttpServer) packCallToken(callID string, outputSchema *arrow.Schema, au
 // packCursorToken seals the advancing half. Re-minted every turn; this is
 // the only token a response returns.
 func (h *HttpServer) packCursorToken(callID string, state interface{}, auth *AuthContext) ([]byte, error) {
+	return h.packCursorTokenFor("", callID, state, auth)
+}
+
+// packCursorTokenFor is packCursorToken with the minting stream method bound
+// into the sealed payload. Every cursor a response carries is minted here.
+func (h *HttpServer) packCursorTokenFor(method string, callID string, state interface{}, auth *AuthContext) ([]byte, error) {
 	data := cursorTokenData{
 		CreatedAt: time.Now().Unix(),
 		CallID:    callID,
 		State:     state,
+		Method:    method,
 	}
 	return h.sealToken(cursorTokenVersion, &data, stateTokenAad(auth))
 }
